@@ -67,6 +67,18 @@ func NewGRPC() *GRPC {
 	return g
 }
 
+// NewGRPCOn is NewGRPC serving on a listener of the caller's making (a GoAway listener for a target that stops
+// accepting connections while the connections it has stay served and its port stays reserved). Close closes the
+// listener too.
+func NewGRPCOn(lis net.Listener) *GRPC {
+	g := &GRPC{lis: lis}
+	g.srv = grpc.NewServer()
+	server.RegisterTargetServiceServer(g.srv, g)
+	reflection.Register(g.srv)
+	go func() { _ = g.srv.Serve(lis) }()
+	return g
+}
+
 func (g *GRPC) Addr() string { return g.lis.Addr().String() }
 func (g *GRPC) Close()       { g.srv.Stop() }
 
